@@ -90,7 +90,11 @@ func referencePass(pool []*c14sim.Key, poolPath string, parallel int) (excluded 
 	}
 	var jobs []*drv.Job
 	for _, k := range pool {
-		jobs = append(jobs, &drv.Job{Name: fmt.Sprint(k.ID), Argv: []string{*refBin, poolPath, fmt.Sprint(k.ID)}, Timeout: 10 * time.Second, Dir: *work})
+		kb, err := json.Marshal(k)
+		if err != nil {
+			fatal("%v", err)
+		}
+		jobs = append(jobs, &drv.Job{Name: fmt.Sprint(k.ID), Argv: []string{*refBin}, Stdin: kb, Timeout: 10 * time.Second, Dir: *work})
 	}
 	drv.RunPool(jobs, parallel, nil, nil)
 	for i, j := range jobs {
@@ -127,6 +131,9 @@ type procRun struct {
 	job   *drv.Job
 	res   *c14sim.ProcResult
 	crash *crashInfo
+	// pool / eligible override the default pool for this process (long-history processes use a bigger one)
+	pool     []*c14sim.Key
+	eligible []int
 }
 
 type crashInfo struct {
@@ -266,6 +273,7 @@ type finding struct {
 	Specs    []c14sim.RunSpec
 	V        *c14sim.Violation
 	Stderr   string
+	Pool     []*c14sim.Key
 }
 
 func newAgg() *agg {
@@ -273,11 +281,14 @@ func newAgg() *agg {
 }
 
 func (a *agg) add(p *procRun, pool []*c14sim.Key, eligible []int) {
+	if p.pool != nil {
+		pool, eligible = p.pool, p.eligible
+	}
 	a.procs++
 	if p.crash != nil {
 		// reconstruct the explicit case from the switch trace
 		lastRun, sw := readTrace(p.cmd.TracePath)
-		f := &finding{Class: p.crash.Class, Detail: p.crash.Detail, ProcSeed: p.cmd.Seed, Stderr: p.crash.Stderr}
+		f := &finding{Class: p.crash.Class, Detail: p.crash.Detail, ProcSeed: p.cmd.Seed, Stderr: p.crash.Stderr, Pool: pool}
 		if len(p.cmd.Explicit) > 0 {
 			for j := 0; j <= lastRun && j < len(p.cmd.Explicit); j++ {
 				f.Specs = append(f.Specs, p.cmd.Explicit[j])
@@ -331,7 +342,7 @@ func (a *agg) add(p *procRun, pool []*c14sim.Key, eligible []int) {
 	}
 	if r.Violation != nil {
 		v := r.Violation
-		a.found = append(a.found, &finding{Class: v.Class, Detail: v.Detail, ProcSeed: r.Seed, Specs: v.Specs, V: v})
+		a.found = append(a.found, &finding{Class: v.Class, Detail: v.Detail, ProcSeed: r.Seed, Specs: v.Specs, V: v, Pool: pool})
 	}
 }
 
@@ -396,6 +407,27 @@ func main() {
 	if *selftest {
 		os.Exit(doSelftestDeterminism(base, parallel, pool, eligible, poolPath))
 	}
+	// a bigger pool for the long sequential histories (state that only shows after many distinct inputs)
+	bigGen := 4000
+	if *tier == "thorough" {
+		bigGen = 12000
+	}
+	bigPool := c14sim.GenPoolWide(prng.Derive(base, "c14-big-pool", 0), bigGen)
+	bigPath := filepath.Join(*work, "pool-big.json")
+	bigExcluded := referencePass(bigPool, bigPath, parallel)
+	var bigEligible []int
+	for i, k := range bigPool {
+		if k.RefOK {
+			bigEligible = append(bigEligible, i)
+		}
+	}
+	excluded += bigExcluded
+	fmt.Printf("long-history pool: %d keys, %d excluded\n", len(bigPool), bigExcluded)
+	histProc := func(seed uint64, runs int) *procRun {
+		p := newProc(c14sim.ProcCmd{PoolPath: bigPath, Seed: seed, Runs: runs, History: true}, 0, 10*time.Minute)
+		p.pool, p.eligible = bigPool, bigEligible
+		return p
+	}
 
 	if *oneSeed != 0 {
 		p := newProc(c14sim.ProcCmd{PoolPath: poolPath, Seed: *oneSeed, Runs: *oneRuns, History: *oneHist, LogPath: filepath.Join(*work, "one.log")}, 0, 60*time.Second)
@@ -423,7 +455,7 @@ func main() {
 		}
 		// long sequential histories (thousands of calls per process)
 		for i := 0; i < 64; i++ {
-			procs = append(procs, newProc(c14sim.ProcCmd{PoolPath: poolPath, Seed: prng.Derive(base, "c14-history-process", uint64(i)), Runs: 40, History: true}, 0, 5*time.Minute))
+			procs = append(procs, histProc(prng.Derive(base, "c14-history-process", uint64(i)), 60))
 		}
 		detSeeds = []uint64{procSeed(base, 0), procSeed(base, 1), procSeed(base, 2)}
 		runProcs(a, procs, parallel, pool, eligible, true)
@@ -443,7 +475,7 @@ func main() {
 				procs = append(procs, newProc(c14sim.ProcCmd{PoolPath: poolPath, Seed: procSeed(base, wave*100000+i), Runs: 24}, 0, 5*time.Minute))
 			}
 			for i := 0; i < parallel/2; i++ {
-				procs = append(procs, newProc(c14sim.ProcCmd{PoolPath: poolPath, Seed: prng.Derive(base, "c14-history-process", uint64(wave*100000+i)), Runs: 200, History: true}, 0, 10*time.Minute))
+				procs = append(procs, histProc(prng.Derive(base, "c14-history-process", uint64(wave*100000+i)), 200))
 			}
 			runProcs(a, procs, parallel, pool, eligible, true)
 			wave++
@@ -488,7 +520,11 @@ func main() {
 			continue
 		}
 		seen[f.Class] = true
-		rf := finalize(f, base, pool, parallel)
+		fp := pool
+		if f.Pool != nil {
+			fp = f.Pool
+		}
+		rf := finalize(f, base, fp, parallel)
 		key := replayKey(rf)
 		if kf := drv.MatchFinding(findings, "C14", rf.Class, key); kf != nil {
 			fmt.Printf("KNOWN-FINDING: property=C14 class=%s key=%s %s\n", rf.Class, key, kf.Text)
@@ -507,7 +543,7 @@ func main() {
 	}
 	wall := time.Since(start).Seconds()
 	if !*noEvid {
-		writeEvidence(a, base, wall, reported, known, parallel, len(pool), excluded, refWall)
+		writeEvidence(a, base, wall, reported, known, parallel, len(pool)+len(bigPool), excluded, refWall)
 	}
 	fmt.Printf("C14: %d simulation processes (each starting cold), %d runs, %d calls, %d switches, %d distinct interleavings (%d with a switch between two tasks inside library calls), sweep: %d pairs / %d single-preemption points (%d cold), %.1f s\n",
 		a.procs, a.runs, a.calls, a.switches, len(a.sigs), len(a.sigsNT), a.sweepPairs, a.sweepPoints, a.sweepCold, wall)
